@@ -11,11 +11,14 @@ From CV Require Import Conc.Sched.
 Definition Lcmds : nat := 0.   Definition Lmax : nat := 1.
 Definition Lfbs : nat := 2.    Definition Lfbmax : nat := 3.   Definition Lfbdis : nat := 4.
 Definition Ltimeout : nat := 5.
+(* the mutex SetConfigThreadSafe holds while it stores the new settings and forwards them to Configurable logic *)
+Definition Mcfg : nat := 0.
 (* markers *)
 Definition Menter : nat := 0.  Definition Mexit : nat := 1.
 Definition Mfenter : nat := 2. Definition Mfexit : nat := 3.  Definition Mdone : nat := 4.
+Definition Mforward : nat := 5.   (* the new configuration handed to the open/close logic (Configurable), still under the mutex *)
 
-Record gshared := { g_cmds : Z; g_max : Z; g_fbs : Z; g_fbmax : Z; g_fbdis : bool; g_timeout : Z }.
+Record gshared := { g_cmds : Z; g_max : Z; g_fbs : Z; g_fbmax : Z; g_fbdis : bool; g_timeout : Z; g_cfgheld : bool }.
 
 (* how the user's functions end *)
 Inductive rres := RunOk | RunErr | RunPanic.
@@ -40,8 +43,8 @@ Inductive glocal :=
 | Setter (tmo max fbmax : Z) (fbdis : bool) (k : nat)     (* k stores done *)
 | Reader (k : nat).
 
-Definition set_cmds s v := {| g_cmds := v; g_max := g_max s; g_fbs := g_fbs s; g_fbmax := g_fbmax s; g_fbdis := g_fbdis s; g_timeout := g_timeout s |}.
-Definition set_fbs s v := {| g_cmds := g_cmds s; g_max := g_max s; g_fbs := v; g_fbmax := g_fbmax s; g_fbdis := g_fbdis s; g_timeout := g_timeout s |}.
+Definition set_cmds s v := {| g_cmds := v; g_max := g_max s; g_fbs := g_fbs s; g_fbmax := g_fbmax s; g_fbdis := g_fbdis s; g_timeout := g_timeout s; g_cfgheld := g_cfgheld s |}.
+Definition set_fbs s v := {| g_cmds := g_cmds s; g_max := g_max s; g_fbs := v; g_fbmax := g_fbmax s; g_fbdis := g_fbdis s; g_timeout := g_timeout s; g_cfgheld := g_cfgheld s |}.
 Definition bz (b : bool) : Z := if b then 1 else 0.
 
 Definition gstep1 (s : gshared) (l : glocal) : option (gshared * glocal * lab) :=
@@ -80,15 +83,20 @@ Definition gstep1 (s : gshared) (l : glocal) : option (gshared * glocal * lab) :
       | GDone _ => None
       end
   | Setter tm m fm fd k =>
+      let hold b := {| g_cmds := g_cmds s; g_max := g_max s; g_fbs := g_fbs s; g_fbmax := g_fbmax s; g_fbdis := g_fbdis s; g_timeout := g_timeout s; g_cfgheld := b |} in
       match k with
-      | 0%nat => Some ({| g_cmds := g_cmds s; g_max := g_max s; g_fbs := g_fbs s; g_fbmax := g_fbmax s; g_fbdis := g_fbdis s; g_timeout := tm |},
-                       Setter tm m fm fd 1, LAtomic Ltimeout OpStore tm 0)
-      | 1%nat => Some ({| g_cmds := g_cmds s; g_max := m; g_fbs := g_fbs s; g_fbmax := g_fbmax s; g_fbdis := g_fbdis s; g_timeout := g_timeout s |},
-                       Setter tm m fm fd 2, LAtomic Lmax OpStore m 0)
-      | 2%nat => Some ({| g_cmds := g_cmds s; g_max := g_max s; g_fbs := g_fbs s; g_fbmax := g_fbmax s; g_fbdis := fd; g_timeout := g_timeout s |},
-                       Setter tm m fm fd 3, LAtomic Lfbdis OpStore (bz fd) 0)
-      | 3%nat => Some ({| g_cmds := g_cmds s; g_max := g_max s; g_fbs := g_fbs s; g_fbmax := fm; g_fbdis := g_fbdis s; g_timeout := g_timeout s |},
-                       Setter tm m fm fd 4, LAtomic Lfbmax OpStore fm 0)
+      | 0%nat => if g_cfgheld s then None      (* blocked on notThreadSafeConfigMu *)
+                 else Some (hold true, Setter tm m fm fd 1, LLock Mcfg)
+      | 1%nat => Some ({| g_cmds := g_cmds s; g_max := g_max s; g_fbs := g_fbs s; g_fbmax := g_fbmax s; g_fbdis := g_fbdis s; g_timeout := tm; g_cfgheld := g_cfgheld s |},
+                       Setter tm m fm fd 2, LAtomic Ltimeout OpStore tm 0)
+      | 2%nat => Some ({| g_cmds := g_cmds s; g_max := m; g_fbs := g_fbs s; g_fbmax := g_fbmax s; g_fbdis := g_fbdis s; g_timeout := g_timeout s; g_cfgheld := g_cfgheld s |},
+                       Setter tm m fm fd 3, LAtomic Lmax OpStore m 0)
+      | 3%nat => Some ({| g_cmds := g_cmds s; g_max := g_max s; g_fbs := g_fbs s; g_fbmax := g_fbmax s; g_fbdis := fd; g_timeout := g_timeout s; g_cfgheld := g_cfgheld s |},
+                       Setter tm m fm fd 4, LAtomic Lfbdis OpStore (bz fd) 0)
+      | 4%nat => Some ({| g_cmds := g_cmds s; g_max := g_max s; g_fbs := g_fbs s; g_fbmax := fm; g_fbdis := g_fbdis s; g_timeout := g_timeout s; g_cfgheld := g_cfgheld s |},
+                       Setter tm m fm fd 5, LAtomic Lfbmax OpStore fm 0)
+      | 5%nat => Some (s, Setter tm m fm fd 6, LMark Mforward 0)
+      | 6%nat => Some (hold false, Setter tm m fm fd 7, LUnlock Mcfg)
       | _ => None
       end
   | Reader k =>
@@ -100,7 +108,7 @@ Definition gstep1 (s : gshared) (l : glocal) : option (gshared * glocal * lab) :
   end.
 
 Definition ginit (tmo max fbmax : Z) (fbdis : bool) : gshared :=
-  {| g_cmds := 0; g_max := max; g_fbs := 0; g_fbmax := fbmax; g_fbdis := fbdis; g_timeout := tmo |}.
+  {| g_cmds := 0; g_max := max; g_fbs := 0; g_fbmax := fbmax; g_fbdis := fbdis; g_timeout := tmo; g_cfgheld := false |}.
 
 (* ---------- correspondence ---------- *)
 Definition gauge_case : Type := nat * gshared * list glocal * list (nat * lab).
@@ -121,7 +129,7 @@ Definition fb_inflight (l : glocal) : bool :=
 Definition is_caller (l : glocal) : bool := match l with Caller _ _ _ => true | _ => false end.
 Definition is_setter (l : glocal) : bool := match l with Setter _ _ _ _ _ => true | _ => false end.
 Definition finished (l : glocal) : bool :=
-  match l with Caller _ _ (GDone _) => true | Setter _ _ _ _ 4%nat => true | Reader 2%nat => true | _ => false end.
+  match l with Caller _ _ (GDone _) => true | Setter _ _ _ _ 7%nat => true | Reader 2%nat => true | _ => false end.
 Definition fresh (l : glocal) : bool :=
   match l with Caller _ _ GStart => true | Setter _ _ _ _ 0%nat => true | Reader 0%nat => true | _ => false end.
 Definition result_of (l : glocal) : option Z := match l with Caller _ _ (GDone r) => Some r | _ => None end.
@@ -140,3 +148,7 @@ Definition rejecting_run (l : glocal) : bool := match l with Caller _ _ (GReject
 Definition rejecting_fb (l : glocal) : bool := match l with Caller _ _ (GFbRejecting _) => true | _ => false end.
 Definition all_fresh (pool : list glocal) : Prop := Forall (fun l => fresh l = true) pool.
 Definition no_setters (pool : list glocal) : Prop := Forall (fun l => is_setter l = false) pool.
+
+(* a reconfiguration between its Lock and its Unlock *)
+Definition in_cfg_section (l : glocal) : bool :=
+  match l with Setter _ _ _ _ (1 | 2 | 3 | 4 | 5 | 6)%nat => true | _ => false end.
